@@ -23,7 +23,8 @@ CLEAN = [S("alpha"), S("beta"), S("gamma"), S("delta"), S("10.0.0.1:6379."), S("
          S("cache-a"), S("cache-b"), S("x/y"), S("z_"), I(3), I(5), I(7), S("7"), ST("7"), ST("alpha"),
          PST("beta"), I64(5), K("bool", "true"), K("bool", "false"), K("f64", "2.5"), K("f32", "0.25"), K("u", 9),
          K("u16", 9), K("u32", 5), K("u64", "18446744073709551615"), K("i8", -3), K("i16", 300), K("i32", 7),
-         K("bytes", "alpha"), K("err", "gamma"), K("pint", 13), K("ppstr", "delta"), K("struct", 4)]
+         K("bytes", "alpha"), K("err", "gamma"), K("pint", 13), K("ppstr", "delta"), K("struct", 4),
+         K("verr", "beta"), K("ppstringer", "cache-a")]
 
 # the single-key API of kv.Store (harness/cmd/c15/script.go kvOps), by the redis type of the key it is run on
 KV_OPS = {
@@ -113,8 +114,8 @@ class C15(Property):
 
     def extra(self, ctx):
         """Direct monitor: the empty-ring error path of the two users of the ring (white-box, the public
-        constructors exit on a zero total weight): every operation must fail with ErrNoRedisNode /
-        the cluster's errNotFound, never panic or succeed."""
+        constructors exit on a zero total weight): EVERY method of kv.Store / cache.Cache must fail with
+        ErrNoRedisNode / the cluster's errNotFound, never panic or succeed."""
         fails = []
         for pkg in ("kv", "cache"):
             rel = "core/stores/%s/verif_c15_test.go" % pkg
@@ -123,7 +124,7 @@ class C15(Property):
                                                 run="TestVerifC15Empty", cases=[], tag="c15" + pkg, timeout=600)
             if rc != 0 or len(res) != 1:
                 raise ExecError("c15 empty-ring executor (%s) rc=%s: %s" % (pkg, rc, out[-1500:]))
-            bad = [k for k in ("get", "set", "del", "incr") if not res[0].get(k)]
+            bad = [k for k in ("get", "set", "del", "incr", "all") if not res[0].get(k)] + (res[0].get("bad") or [])
             if bad:
                 fails.append({"what": "%s cluster over an empty ring: %s did not report the no-node error" % (pkg, bad),
                               "replay": res[0]})
